@@ -337,8 +337,12 @@ Proof.
   assert (Hdeg1 : pdeg fp_field (Db a1) < 2 ^ 31).
   { rewrite (degree_pdeg bfe_ops fp_field canon bden bfe_field_ok a Ha) in Hdeg.
     destruct (remove_root0_shape bfe_ops true a d a1 d1 R) as [->|[x0 ->]]; [exact Hdeg|].
-    change (2 ^ 31) with (Z.of_nat (Z.to_nat (2 ^ 31))). apply pdeg_bound. intros i Hi.
-    change (coeff fp_field (Db a1) i) with (coeff fp_field (Db (x0 :: a1)) (S i)). apply coeff_above_pdeg. lia. }
+    destruct (Z_lt_ge_dec (pdeg fp_field (Db a1)) (2 ^ 31)) as [L|G]; [exact L|exfalso].
+    change (2 ^ 31) with 2147483648 in *.
+    destruct (coeff_at_pdeg fp_field (Db a1) ltac:(lia)) as [Ec Hn]. apply Hn. rewrite <- Ec.
+    change (coeff fp_field (Db a1) (Z.to_nat (pdeg fp_field (Db a1))))
+      with (coeff fp_field (Db (x0 :: a1)) (S (Z.to_nat (pdeg fp_field (Db a1))))).
+    apply coeff_above_pdeg. lia. }
   destruct (ntt_arm_spec a1 d1 q0 Ha1 Hd1 NZ1 E1 Hdeg1) as [av [dv [C Hrest]]].
   destruct (existsb (fis_zero xfe_ops) dv) eqn:Ez.
   { exact (clean_divide_fallback_spec bfe_ops xfe_ops xb_act xunlift pdiv_offset ntt_x intt_x xbatch_inversion fp_field canon bden
